@@ -305,6 +305,8 @@ def template_match(f, template, mode='reflect', cval=0., out=None, output=None):
     if np.may_share_memory(f, output):
         # the kernel reads its input while it writes the output
         f = f.copy()
+    if np.may_share_memory(template, output):
+        template = template.copy()
     _check_mode(mode, cval, 'template_match')
     return _convolve.template_match(f, template, output, mode2int[mode], 0)
 
